@@ -147,6 +147,7 @@ type Sim struct {
 	positiveOverRejected    map[string]bool
 	faultedNames            map[string]bool // names carried by a data / recovery request that was served with a fault
 	flipsAfterStop          int
+	refuseAfterStop         bool
 	rejectedAt              map[string]int // name|hash -> wire sequence number at which a complete but corrupt staged copy of that version was last seen
 	voidBefore              map[string]int // name|hash -> acknowledgements up to this sequence number are void AND the sender has been told so (failed verdict)
 	pollMismatch            map[string]bool
@@ -721,6 +722,10 @@ func (s *Sim) StopSender(graceful bool, bound time.Duration) bool {
 			if p[0].kind == "data" && s.flipsAfterStop > 0 {
 				s.flipsAfterStop--
 				f = Fault{Kind: XFlip, All: true}
+			}
+			if s.refuseAfterStop {
+				// the network is down while the sender is told to stop at once: it must still exit
+				f = Fault{Kind: XRefuse}
 			}
 			s.Serve(p[0], f)
 			s.observe()
